@@ -9,6 +9,7 @@
  *
  * VP_MODE: encode | decode | pad | strarr ; VP_SEED, VP_CASES, VP_PLACE, VP_CANARY, VP_DUMP
  */
+#define VP_PROGRESS 1
 #include "vp.h"
 #include "vssref.h"
 #include "avtp/acf/custom/Vss.h"
@@ -33,6 +34,8 @@
 static vp_ctx_t g_ctx;
 static uint32_t g_place;
 static int g_canary;
+static int g_nullempty;   /* describe zero-length inputs by a null pointer (only in builds without UBSan's nonnull check:
+                             * memcpy(dst, NULL, 0) is formally undefined before C2y and is not judged here) */
 static vp_arena_t A_big, A_small, O;
 static uint64_t g_nontrivial;
 static uint32_t g_samples = 8;
@@ -294,7 +297,7 @@ static uint8_t* setup_encode_value(const vcase_t* v)
         src = host_data(v, &n);
         VssDataUint8Array_t* st = (VssDataUint8Array_t*)(O.mem + O_STRUCT);
         st->data_length = (uint16_t)n;
-        st->data = src;
+        st->data = (n == 0 && g_nullempty && (v->path_len & 1)) ? 0 : src;
         d->data_uint8_array = st;
     }
     memcpy(O.shadow, O.mem, OBJ_SZ);
@@ -330,7 +333,7 @@ static void do_encode_case(vp_ctx_t* c, uint64_t idx)
     /* path */
     VssPath_t* pth = (VssPath_t*)(O.mem + O_PATH);
     if (v.mode == 1) pth->vss_static_id_path = v.static_id;
-    else { pth->vss_interop_path.path_length = (uint16_t)v.path_len; pth->vss_interop_path.path = (char*)v.path; }
+    else { pth->vss_interop_path.path_length = (uint16_t)v.path_len; pth->vss_interop_path.path = (v.path_len == 0 && g_nullempty && (idx & 4)) ? 0 : (char*)v.path; }
     memcpy(O.shadow, O.mem, OBJ_SZ);
     vssref_encode_path(m.s + HDR, v.mode, v.static_id, v.path, v.path_len);
     vp_curop("vss-set-path", v.mode == 1 ? "static" : v.mode == 0 ? "interop" : "reserved-mode", dtn, v.path_len);
@@ -536,9 +539,43 @@ static void do_decode_case(vp_ctx_t* c, uint64_t idx)
 }
 
 /* ================================================================== pad (C09) */
+typedef struct { uint8_t* p; uint32_t n; } padcall_t;
+static void pad_thunk(void* a) { padcall_t* k = (padcall_t*)a; Avtp_Vss_Pad((Avtp_Vss_t*)k->p, (uint16_t)k->n); }
+
+/* the message in a buffer of exactly the padded size, directly in front of an inaccessible page: finalisation may touch the
+ * pad bytes and the header, nothing behind them - not even to write back what it read */
+static void pad_exact(vp_ctx_t* c, uint32_t n)
+{
+    uint32_t pad = (4 - n % 4) % 4;
+    uint8_t* g = vp_guard_end(n + pad);
+    uint8_t exp[2048 + 8];
+    vp_rng_fill(&c->rng, g, n + pad);
+    memcpy(exp, g, n + pad);
+    bf_set(exp, POS_LEN, 9, (n + pad) / 4); bf_set(exp, POS_PAD, 2, pad); memset(exp + n, 0, pad);
+    padcall_t k = { g, n };
+    vp_curop("vss-pad-exact", "", "", n);
+    vp_call(c);
+    int sig = vp_try(pad_thunk, &k);
+    c->evals++;
+    char res[2] = { (char)('0' + n % 4), 0 };
+    if (sig) { if (vp_viol(c, "pad", "exact-size-buffer", "fault-behind-the-padded-message", "len%4=", res, 0)) { o_s(c, "{\"length\":"); o_u(c, n); o_s(c, ",\"signal\":"); o_u(c, (uint64_t)sig); o_s(c, "}"); o_end(c); } }
+    else if (memcmp(g, exp, n + pad) != 0 && vp_viol(c, "pad", "exact-size-buffer", "bytes-differ", "len%4=", res, 0)) { o_s(c, "{\"length\":"); o_u(c, n); o_s(c, "}"); o_end(c); }
+    vp_guard_free(g, n + pad);
+    if (!g_canary) {     /* ASan build: the same in an exact-size heap block (red zone behind it) */
+        uint8_t* h = vp_heap(n + pad);
+        memcpy(h, exp, n + pad); vp_rng_fill(&c->rng, h + n, pad); h[0] ^= 0;
+        vp_call(c);
+        Avtp_Vss_Pad((Avtp_Vss_t*)h, (uint16_t)n);
+        c->evals++;
+        if (memcmp(h, exp, n + pad) != 0 && vp_viol(c, "pad", "exact-size-heap-block", "bytes-differ", "len%4=", res, 0)) { o_s(c, "{\"length\":"); o_u(c, n); o_s(c, "}"); o_end(c); }
+        vp_heap_free(h);
+    }
+}
+
 static void do_pad(vp_ctx_t* c, uint64_t reps)
 {
     msg_t m;
+    for (uint32_t n = 12; n <= 2044; n++) pad_exact(c, n);
     for (uint32_t n = 12; n <= 2044; n++) {
         for (uint64_t r = 0; r < reps; r++) {
             m.a = &A_big; m.p = A_big.mem + PDU_BASE + g_place; m.s = A_big.shadow + PDU_BASE + g_place;
@@ -653,6 +690,8 @@ static void do_strarr_case(vp_ctx_t* c, uint64_t idx)
     uint32_t extra = 8;
     for (uint32_t i = 0; i < n + extra && i < MAXSTR + 8; i++) { sp[i] = &so[i]; }
     for (uint32_t i = 0; i < n; i++) { so[i].data_length = lens[i]; so[i].data = (char*)strs[i]; }
+    /* an empty string may also be described by a zero-initialised descriptor (no data pointer at all) */
+    if (g_nullempty && ((idx / 3) & 1)) for (uint32_t i = 0; i < n; i++) if (lens[i] == 0 && ((i + idx) & 1)) so[i].data = 0;
     VssDataStringArray_t* arr = (VssDataStringArray_t*)(O.mem + O_STRUCT); VssDataStringArray_t* sarr = (VssDataStringArray_t*)(O.shadow + O_STRUCT);
     size_t poff = (size_t)(idx % 4);                  /* packed arrays live at any byte offset (e.g. inside a VSS message) */
     uint8_t* packed_blk = blk_alloc(total + poff);
@@ -773,6 +812,7 @@ static void do_strarr_case(vp_ctx_t* c, uint64_t idx)
 
 int main(void)
 {
+    vp_watchdog_start();       /* these monitors call the library continuously: a long silence is a spinning call */
     vp_ctx_t* c = &g_ctx;
     const char* mode = vp_cfg_str("MODE", "encode");
     uint64_t seed = vp_cfg_u64("SEED", 1);
@@ -780,6 +820,7 @@ int main(void)
     uint64_t first = vp_cfg_u64("FIRST", 0);
     g_place = (uint32_t)vp_cfg_u64("PLACE", 0);
     g_canary = (int)vp_cfg_u64("CANARY", 0);
+    g_nullempty = (int)vp_cfg_u64("NULLEMPTY", 0);
     vp_ctx_init(c, seed, 0x5500 + (uint64_t)mode[0] + first * 977);
     c->tdump = (int)vp_cfg_u64("DUMP", 0);
     vp_arena_new(&A_big, BIG_SZ); vp_arena_new(&A_small, SMALL_SZ); vp_arena_new(&O, OBJ_SZ);
